@@ -87,7 +87,13 @@ def run_c13(out, tier, seed, replay):
     out.add_tlc(g2, "LifeGen simulation (3 runs, <= 2 facts pushed between runs)")
     hist_cases = h1 + h2
     if tier == "quick" and len(h1) > 1500:
-        hist_cases = rnd.sample(h1, 1500) + h2
+        # stratified: histories that push into a lattice relation after a run are few and all kept (up to 1200)
+        latrels = {(p["name"], r["name"]) for p in mono for r in p["rels"] if r["kind"] == "lat"}
+        islat = lambda c: any((c["prog"], f["rel"]) in latrels for seg in c["segs"][1:] for f in seg)
+        hl = [c for c in h1 if islat(c)]
+        ho = [c for c in h1 if not islat(c)]
+        hist_cases = (hl if len(hl) <= 1200 else rnd.sample(hl, 1200)) + rnd.sample(ho, min(len(ho), 1500)) + h2
+        out.extra["lattice_push_histories"] = min(len(hl), 1200)
     for c in hist_cases:
         p = byname[c["prog"]]
         ops = []
